@@ -75,6 +75,11 @@ static void handle(const char *op, struct arg *a, int n, FILE *out) {
 		int i;
 		msg = load(&a[0]);
 		if (msg == NULL) { fputs("ERR", out); return; }
+		/* reading the message (what conditions do before an action rewrites it) must not change what is written */
+		(void)message_get_header(msg, (const char *)a[1].p);
+		for (i = 2; i + 1 < n; i += 2)
+			(void)message_get_header(msg, (const char *)a[i].p);
+		(void)message_get_body(msg);
 		for (i = 2; i + 1 < n; i += 2)
 			message_set_header(msg, (const char *)a[i].p, strdup((const char *)a[i + 1].p));
 		o = write_mem(msg, &len);
